@@ -1375,7 +1375,9 @@ def _validate_ports(reactor, ports):
         raise ValueError("'ports' must be a list of strings, ints or 2-tuples")
 
     processed_ports = []
-    for port in ports:
+    # (iterate a copy: we yield while allocating local ports, and the
+    # caller may re-use its list in the meantime)
+    for port in list(ports):
         if isinstance(port, (set, list, tuple)):
             if len(port) != 2:
                 raise ValueError(
